@@ -18,6 +18,7 @@ package metrics
 //@   ensures result == r
 //@
 //@ func (*Metrics).RecordIterationResult
+//@   fp-inexact
 //@   props C01 C16
 //@   requires metrics.Iteration != nil
 //@   modifies GMiter
@@ -29,6 +30,7 @@ package metrics
 //@   ensures [disabled] !metrics.IterationMetricsEnabled ==> GMiter[result] == old(GMiter[result])
 //@
 //@ func (*Metrics).RecordSetupResult
+//@   fp-inexact
 //@   props C16
 //@   requires metrics.Setup != nil
 //@   modifies GMsetup
@@ -39,6 +41,7 @@ package metrics
 //@   ensures [only-that] forall k string :: k != result ==> GMsetup[k] == old(GMsetup[k])
 //@
 //@ func (*Metrics).RecordIterationStage
+//@   fp-inexact
 //@   props C16
 //@   requires metrics.Iteration != nil
 //@   modifies nothing
